@@ -1342,7 +1342,7 @@ impl Check for C20 {
              all 8 bit flips at every offset of a window, the five 32-bit splats {{0,1,0x7fffffff,0x80000000,0xffffffff}} at every offset of a window, flips+splats at every count / length prefix / row count / tag / flag located by a \
              walker of the binary format, stacks of 1-3 mutations (flip, splat, set byte, truncate, duplicate / remove / insert a block). Compressed files are damaged outside (compressed bytes) or inside (binary stream damaged, then compressed). \
              Loaders: load_binary / load_compressed / load_json / vibesql_executor::load_sql_dump, or Database::load on an extension-less file (detection by content). Oracle per load: Ok or Err; a panic, an abort / stack overflow, \
-             a load running > 15 s or holding > 6 GiB of live heap, or a single allocation request > max(16 MiB, 256 x file length) is a failure. sub_evaluations = number of loads. Fixed cases: one small database per format with exhaustive \
+             a load using > 10 s of CPU time or holding > 6 GiB of live heap, or a single allocation request > max(16 MiB, 256 x file length) is a failure. sub_evaluations = number of loads. Fixed cases: one small database per format with exhaustive \
              truncation and the located-field plan. Non-trivial = at least one loaded content differs from the valid file and still passes the magic / first-byte check of its format. Distinct = hash of the case.",
             MAX_LOADS_PER_CASE
         )
@@ -1350,7 +1350,7 @@ impl Check for C20 {
     fn assumptions(&self) -> Vec<String> {
         vec![
             "each case runs in a child process (`chk_persist --worker C20`) whose global allocator counts the largest single request of each load; allocations made by zstd's C code while decompressing a damaged compressed file go through malloc and are invisible to it (the decompressed Vec and everything the reader allocates afterwards are counted)".into(),
-            "child deaths are reported by vcore as abort[status<wait status>]; the child turns SIGABRT into exit code 100+c, a load that runs > 15 s or holds > 6 GiB of live heap into 140+c, with c = 4*format(binary 0, compressed 1, json 2, sql 3) + source(valid-damaged 0, crafted binary 1, text/bytes 2); wait status = exit code * 256".into(),
+            "child deaths are reported by vcore as abort[status<wait status>]; the child turns SIGABRT into exit code 100+c, a load that uses > 10 s of CPU time (wall backstop 90 s) or holds > 6 GiB of live heap into 140+c, with c = 4*format(binary 0, compressed 1, json 2, sql 3) + source(valid-damaged 0, crafted binary 1, text/bytes 2); wait status = exit code * 256".into(),
             "the thorough tier does not run the libFuzzer target `db_load` of the design note (no fuzzing toolchain in this harness); the grammar-guided and arbitrary sources take its place".into(),
             "temp files: one directory per case under /verif/target/tmp/c20 (override VERIF_PERSIST_TMP), one file rewritten per load, removed when the case ends".into(),
         ]
